@@ -82,6 +82,14 @@ pub fn c13_guarded(o: Option<u32>) -> u32 {
 pub fn c13_recursion_restart(n: &Vec<u32>) -> u32 {
     c13_recursion_restart(n)
 }
+/// an iterator without an end of its own: the chain follows what the data says
+pub fn c13_endless_successors(next: &[usize]) -> usize {
+    std::iter::successors(Some(0usize), |&i| next.get(i).copied()).count()
+}
+/// .. and one whose step moves up a finite tree
+pub fn c13_ascent(p: &std::path::Path) -> usize {
+    std::iter::successors(Some(p), |q| q.parent()).count()
+}
 
 // ---- C17: effect ordering -------------------------------------------------------------------
 pub fn c17_create_before_read(path: &std::path::Path) -> std::io::Result<String> {
